@@ -22,6 +22,7 @@ func runC15(c *an.Ctx) {
 	r15b(c)
 	r15c(c)
 	r15d(c)
+	r15e(c)
 }
 
 var c15Funcs = []struct{ pkg, name, role string }{
@@ -433,4 +434,96 @@ func carriesVal(e, v ssa.Value) bool {
 		}
 	}
 	return false
+}
+
+// R15e: copy() of the role containers gives the copy its own children/template/range: every reference-typed
+// member of the returned struct that designates mutable tree parts comes from a copy() call, never from the
+// receiver's own reference (a whole-struct copy `*i` aliases them).
+func r15e(c *an.Ctx) {
+	c.Rule("R15e", "iteratorRole.copy / aggregator.copy: template, range specifier and child roles of the copy are themselves copies", 2)
+	check := func(fnName string, fields []string) {
+		fn := c.MustFn("core/workflow", fnName)
+		if fn == nil {
+			return
+		}
+		c.Subject()
+		recv := fn.Params[0]
+		// the struct being returned
+		var lit *ssa.Alloc
+		for _, r := range an.Returns(fn) {
+			for _, l := range an.BackSlice(an.RetVal(r, 0), an.SliceOpts{}) {
+				_ = l
+			}
+			if mi, ok := an.RetVal(r, 0).(*ssa.MakeInterface); ok {
+				if al, isAl := mi.X.(*ssa.Alloc); isAl {
+					lit = al
+				}
+			}
+		}
+		if lit == nil {
+			c.Ob("core/workflow."+fnName+"|members-copied", fn.Pos(), false, "cannot find the struct returned by copy()")
+			return
+		}
+		var bad []string
+		// whole-struct store from the receiver?
+		whole := false
+		for _, r := range *lit.Referrers() {
+			if st, ok := r.(*ssa.Store); ok && st.Addr == ssa.Value(lit) {
+				if ld, isLd := st.Val.(*ssa.UnOp); isLd && ld.X == ssa.Value(recv) {
+					whole = true
+				}
+			}
+		}
+		for _, fld := range fields {
+			okF := false
+			for _, r := range *lit.Referrers() {
+				fa, ok := r.(*ssa.FieldAddr)
+				if !ok || !isFieldNamed(fa, fld) || fa.Referrers() == nil {
+					continue
+				}
+				for _, rr := range *fa.Referrers() {
+					st, isSt := rr.(*ssa.Store)
+					if !isSt {
+						continue
+					}
+					fromCopy := false
+					for _, l := range an.BackSlice(st.Val, an.SliceOpts{LeafCall: func(n string, cl *ssa.Call) bool { return an.MethodName(&cl.Call) == "copy" }}) {
+						if l.Kind == "call" {
+							fromCopy = true
+						}
+					}
+					// slice members: a fresh MakeSlice filled with copy() results
+					if mk, isMk := st.Val.(*ssa.MakeSlice); isMk {
+						_ = mk
+						an.Instrs(fn, func(in ssa.Instruction) {
+							if s2, ok := in.(*ssa.Store); ok {
+								if ia, isIA := s2.Addr.(*ssa.IndexAddr); isIA {
+									for _, l := range an.BackSlice(s2.Val, an.SliceOpts{LeafCall: func(n string, cl *ssa.Call) bool { return an.MethodName(&cl.Call) == "copy" }}) {
+										if l.Kind == "call" {
+											_ = ia
+											fromCopy = true
+										}
+									}
+								}
+							}
+						})
+					}
+					if fromCopy {
+						okF = true
+					}
+				}
+			}
+			if !okF {
+				how := "is not assigned from a copy() of the original's"
+				if whole {
+					how = "is inherited by a whole-struct copy of the receiver and never replaced by a copy() of the original's"
+				}
+				bad = append(bad, fld+" "+how)
+			}
+		}
+		c.Ob("core/workflow."+fnName+"|members-copied", fn.Pos(), len(bad) == 0,
+			"a copied role shares mutable parts with its original (%v): with concurrent template processing two copies re-parent and expand the same object, so the loaded tree depends on the schedule", bad)
+	}
+	check("iteratorRole.copy", []string{"template", "For", "aggregator"})
+	check("aggregator.copy", []string{"Roles"})
 }
